@@ -1,0 +1,106 @@
+//! Verification-only exports (compiled only with `--cfg rip_verif`; no behaviour change).
+//!
+//! Thin public wrappers around crate-private entry points so an external harness can drive the
+//! real router / store without a provider.  Nothing here is reachable with the guard off.
+use std::path::PathBuf;
+
+use crate::continuities::{
+    ContextCompiledPayload, ContextSelectionDecidedPayload, ContinuityStore,
+    ProviderCursorUpdatedPayload,
+};
+
+pub use crate::provider_openresponses::OpenResponsesConfig;
+
+/// The real application router over a fresh `SessionEngine`.
+pub fn build_app(
+    data_dir: PathBuf,
+    workspace_root: PathBuf,
+    openresponses: Option<OpenResponsesConfig>,
+) -> axum::Router {
+    crate::server::build_app_with_workspace_root_and_provider(data_dir, workspace_root, openresponses)
+}
+
+#[allow(clippy::too_many_arguments)]
+pub fn append_context_selection_decided(
+    store: &ContinuityStore,
+    continuity_id: &str,
+    run_session_id: String,
+    message_id: String,
+    compiler_strategy: String,
+    compaction_checkpoints: Vec<rip_kernel::ContextSelectionCompactionCheckpointV1>,
+    actor_id: String,
+    origin: String,
+) -> Result<String, String> {
+    store.append_context_selection_decided(
+        continuity_id,
+        ContextSelectionDecidedPayload {
+            run_session_id,
+            message_id,
+            compiler_id: "rip.context_compiler.v1".to_string(),
+            compiler_strategy,
+            limits: serde_json::json!({}),
+            compaction_checkpoint: compaction_checkpoints.first().cloned(),
+            compaction_checkpoints,
+            resets: Vec::new(),
+            reason: None,
+            actor_id,
+            origin,
+        },
+    )
+}
+
+#[allow(clippy::too_many_arguments)]
+pub fn append_context_compiled(
+    store: &ContinuityStore,
+    continuity_id: &str,
+    run_session_id: String,
+    bundle_artifact_id: String,
+    compiler_strategy: String,
+    from_seq: u64,
+    from_message_id: Option<String>,
+    actor_id: String,
+    origin: String,
+) -> Result<String, String> {
+    store.append_context_compiled(
+        continuity_id,
+        ContextCompiledPayload {
+            run_session_id,
+            bundle_artifact_id,
+            compiler_id: "rip.context_compiler.v1".to_string(),
+            compiler_strategy,
+            from_seq,
+            from_message_id,
+            actor_id,
+            origin,
+        },
+    )
+}
+
+#[allow(clippy::too_many_arguments)]
+pub fn append_provider_cursor_updated(
+    store: &ContinuityStore,
+    continuity_id: &str,
+    provider: String,
+    endpoint: Option<String>,
+    model: Option<String>,
+    cursor: Option<serde_json::Value>,
+    action: String,
+    run_session_id: Option<String>,
+    actor_id: String,
+    origin: String,
+) -> Result<String, String> {
+    store.append_provider_cursor_updated(
+        continuity_id,
+        ProviderCursorUpdatedPayload {
+            provider,
+            endpoint,
+            model,
+            cursor,
+            action,
+            reason: None,
+            run_session_id,
+            actor_id,
+            origin,
+        },
+    )
+}
